@@ -190,12 +190,78 @@ def digest_shard(args):
     return rc, out.decode("latin-1"), err
 
 
+# past failures, run first on every run: (case seed, ops, module relative to the repository).  The first three made
+# update_invloop flip the byte AT the loop end before the repair 7d6aa67 (signature invloop-past-loop-end).
+REGRESSION = [(2000021, 300, "test-dev/data/ode2ptk.mod"), (2000019, 300, "test-dev/data/ode2ptk.mod"),
+              (2000023, 300, "test-dev/data/ode2ptk.mod"), (2000027, 300, "test-dev/data/ode2ptk.mod")]
+
+
+def regression_shard(args):
+    exe, cs, nops, path = args
+    rc, out, err = vlib.run_exe(exe, ["one", str(cs), str(nops), path], timeout=1200)
+    return rc, out.decode("latin-1"), err
+
+
+def probe_invloop_capable(exe, files):
+    """modules on which the invert-loop effect can act (quirk + 8-bit looped samples), asked from the real loader"""
+    chunks = [files[i::16] for i in range(16) if files[i::16]]
+    res = vlib.pmap(lambda c: vlib.run_exe(exe, ["probe"] + c, timeout=600), chunks)
+    good = []
+    for rc, out, err in res:
+        for l in out.decode("latin-1").splitlines():
+            f = l.rsplit(" ", 2)
+            if l.startswith("probe ") and f[1] == "1" and int(f[2]) > 0:
+                good.append(f[0][6:])
+    return sorted(good)
+
+
+def check_inv(ck, inv_lines, stats):
+    """model of update_invloop vs the observed channel state and flipped bytes"""
+    if not inv_lines or not ck.lean_ok:
+        return
+    model = vlib.run_driver("drv_c15", "\n".join(l for _, l in inv_lines) + "\n")
+    table = gen_data_writers.constants(vlib.REPO)["invloopTable"]
+    # how many channels fired on the same sample in the same call (two flips of one byte cancel)
+    fired = {}
+    rows = []
+    for (case, l), m in zip(inv_lines, model):
+        f = l.split(" ")
+        alts = [a.split(":") for a in m.split(" ")[1:]]
+        real = (f[6], f[7])
+        match = [a for a in alts if (a[0], a[1]) == real]
+        rows.append((case, l, f, alts, match))
+        if match and match[0][2] != "-":
+            fired[(case["case_seed"], f[1], f[8])] = fired.get((case["case_seed"], f[1], f[8]), 0) + 1
+    for case, l, f, alts, match in rows:
+        stats["inv_lines"] += 1
+        skipped = (f[6], f[7]) == (f[4], f[5])
+        if not match and not skipped:
+            ck.unproved("correspondence Wrap.invloopStep vs update_invloop",
+                        "case %s\n%s\nmodel alternatives (count:pos:index) %s" % (case["line"], l, alts))
+            continue
+        if not match:
+            stats["inv_skipped_tick"] += 1
+            continue
+        idx = match[0][2]
+        ck.count(vlib.hash_str(" ".join(f[3:18])), nontrivial=idx != "-")
+        if idx != "-":
+            stats["inv_stores"] += 1
+            if fired.get((case["case_seed"], f[1], f[8]), 0) == 1 and not (f[18] == "1" and f[19] == idx):
+                ck.unproved("correspondence Wrap.invloopStep vs update_invloop (stored index)",
+                            "case %s\n%s\nmodel stores at %s, real flipped %s byte(s), first at %s" % (case["line"], l, idx, f[18], f[19]))
+        ck.cov["traces_validated_against_impl"] += 1
+
+
 def do_digest(ck, exe, mods, nshards, ncases, nops, stats):
+    # regression corpus first
+    reg = [(exe, cs, n, os.path.join(vlib.REPO, p)) for cs, n, p in REGRESSION if os.path.exists(os.path.join(vlib.REPO, p))]
     shards = []
     for i in range(nshards):
         ms = [mods[(i * ncases + j) % len(mods)] for j in range(ncases)]
         shards.append((exe, ck.seed * 15485863 + i, ncases, nops, ms))
-    for (rc, out, err), sh in zip(vlib.pmap(digest_shard, shards), shards):
+    results = vlib.pmap(regression_shard, reg) + vlib.pmap(digest_shard, shards)
+    inv_lines = []
+    for (rc, out, err), sh in zip(results, reg + shards):
         cur = None
         for l in out.splitlines():
             if l.startswith("case "):
@@ -204,6 +270,8 @@ def do_digest(ck, exe, mods, nshards, ncases, nops, stats):
                 stats["digest_cases"] += 1
                 stats["digest_cases_with_invloop_fx"] += "invloopfx=1" in l
                 stats["digest_interp_" + re.search(r"interp=(\d)", l).group(1)] += 1
+            elif l.startswith("inv ") and cur:
+                inv_lines.append((cur, l))
             elif l.startswith("o_fail ") and cur:
                 f = l.split(" ", 3)
                 ck.violation(f[1], {"how": "python3 tools/check.py C15 --replay <this file>  (runs: c15_digest one <case_seed> <nops> <path> -v)",
@@ -218,9 +286,10 @@ def do_digest(ck, exe, mods, nshards, ncases, nops, stats):
                     stats["digest_" + k] += int(v)
         if rc != 0:
             sig = vlib.sanitizer_signature(err)
-            ck.violation("harness-abort:" + sig, {"cmd": ["c15_digest", "run"] + [str(x) for x in sh[1:4]] + sh[4],
+            ck.violation("harness-abort:" + sig, {"cmd": ["c15_digest", "run" if len(sh) == 5 else "one"] + [str(x) for x in sh[1:4]] + (sh[4] if len(sh) == 5 else []),
                                                   "last_case": cur, "stderr": err[-3000:]},
                          "digest oracle aborted (rc=%d): %s" % (rc, sig))
+    check_inv(ck, inv_lines, stats)
     ck.cov["evaluations"] += stats["digest_calls"]
 
 
@@ -248,6 +317,15 @@ def run(ck):
     # 4. direct oracle
     dexe = vlib.build_harness("c15_digest", ["c15_digest.c"])
     dmods = corpus(ck, 90 if quick else 400, want_mod=12 if quick else 60)
+    inv_mods = probe_invloop_capable(dexe, [f for f in vlib.corpus_files() if 0 < os.path.getsize(f) < 300000])
+    ck.note("invloop_capable_modules", len(inv_mods))
+    if inv_mods:
+        # every third case plays a module the invert-loop effect can act on
+        ck.rng.shuffle(inv_mods)
+        k = 0
+        for j in range(0, len(dmods), 3):
+            dmods[j] = inv_mods[k % len(inv_mods)]
+            k += 1
     do_digest(ck, dexe, dmods, 16, 8 if quick else 80, 150 if quick else 400, stats)
     for k, v in sorted(stats.items()):
         ck.note(k, v)
